@@ -133,56 +133,57 @@ let handle_cond id fs =
 let handle_inst id fs =
   let rn = Sexp.atom (Sexp.field1 "rule" fs) in
   let asg = parse_asg (Sexp.field "assign" fs) in
-  match find_rule (coqstr rn) rules with
-  | None -> Registry.result ~id ~status:"diff" ~key:("inst:unknown-rule:" ^ rn) ~detail:"rule not in the model" ()
-  | Some r ->
-      let lhs = arith_of_sexp (Sexp.field1 "lhs" fs) and rhs = arith_of_sexp (Sexp.field1 "rhs" fs) in
-      let cond = Sexp.to_string (Sexp.field1 "cond" fs) in
-      let impl_l = Sexp.to_string (Sexp.field1 "impl_lhs" fs) and impl_r = Sexp.to_string (Sexp.field1 "impl_rhs" fs) in
-      let syms = parse_syms (Sexp.field "syms" fs) in
-      let vals = Sexp.field "vals" fs in
-      let sigma = subst_of asg [] in
-      let ml_t = inst sigma r.r_lhs and mr_t = inst sigma r.r_rhs in
-      let ml = from_arith N0 lhs and mr = from_arith N0 rhs in
-      let mcond = show_res_bool (eval_condition r asg) in
-      let diffs = ref [] in
-      let add s = diffs := s :: !diffs in
-      if not (arith_eqb ml_t lhs) then add (Printf.sprintf "instantiated lhs: impl %s model %s" (show_arith lhs) (show_arith ml_t));
-      if not (arith_eqb mr_t rhs) then add (Printf.sprintf "instantiated rhs: impl %s model %s" (show_arith rhs) (show_arith mr_t));
-      if show_res_expr ml <> impl_l then add (Printf.sprintf "from_arith lhs: impl %s model %s" impl_l (show_res_expr ml));
-      if show_res_expr mr <> impl_r then add (Printf.sprintf "from_arith rhs: impl %s model %s" impl_r (show_res_expr mr));
-      if mcond <> cond then add (Printf.sprintf "side condition: impl %s model %s" cond mcond);
-      (* evaluate the model on the *implementation's* lowered expressions when the lowering agrees *)
-      let (mismatch, differ, n) = check_vals syms vals ml mr in
-      (match mismatch with Some m -> add ("value: " ^ m) | None -> ());
-      (* property oracle, on the implementation's observations only *)
-      let widths_differ =
-        (match (try Some (expr_of_sexp (Sexp.field1 "impl_lhs" fs), expr_of_sexp (Sexp.field1 "impl_rhs" fs)) with _ -> None) with
-         | Some (a, b) -> if width_txt a <> width_txt b then Some (width_txt a, width_txt b) else None
-         | None -> None) in
-      if cond = "true" && (impl_l = "(panic)" || impl_r = "(panic)") then begin
-        (* precise class for the recorded findings: the *only* panic is the u32 overflow of the derived
-           width on the right-hand side (decided by the model's width functions on the assignment) *)
-        let w k = match List.assoc_opt (coqstr k) asg with Some v -> v | None -> N0 in
-        let key =
-          if impl_l <> "(panic)" && rn = "unmerge-left-shift" && eval_width_left_shift (w "?wa") (w "?wb") = Panic
-          then "rule:unmerge-left-shift:rhs-wlsh-overflows-u32"
-          else if impl_l <> "(panic)" && rn = "merge-left-shift" && eval_width_max_plus_1 (w "?wb") (w "?wc") = Panic
-          then "rule:merge-left-shift:rhs-max+1-overflows-u32"
-          else "rule:" ^ rn ^ ":lowering-panics" in
-        Registry.result ~id ~status:"fail" ~key
-          ~detail:(Printf.sprintf "side condition holds but from_arith panics: lhs=%s rhs=%s" impl_l impl_r) ()
-      end
-      else if cond = "true" && widths_differ <> None then
-        Registry.result ~id ~status:"fail" ~key:("rule:" ^ rn ^ ":width")
-          ~detail:(match widths_differ with Some (a, b) -> Printf.sprintf "side condition holds, widths %s vs %s" a b | None -> "") ()
-      else if cond = "true" && differ <> None then
-        Registry.result ~id ~status:"fail" ~key:("rule:" ^ rn ^ ":unsound")
-          ~detail:(Printf.sprintf "side condition holds but the sides differ: %s" (match differ with Some d -> d | None -> "")) ()
-      else if !diffs <> [] then
-        Registry.result ~id ~status:"diff" ~key:("inst:" ^ rn) ~detail:(String.concat "; " (List.rev !diffs)) ()
-      else
-        Registry.result ~id ~status:"ok" ~key:("inst:" ^ rn ^ ":" ^ cond) ~detail:(Printf.sprintf "%d tuples" n) ()
+  let lhs = arith_of_sexp (Sexp.field1 "lhs" fs) and rhs = arith_of_sexp (Sexp.field1 "rhs" fs) in
+  let cond = Sexp.to_string (Sexp.field1 "cond" fs) in
+  let impl_l = Sexp.to_string (Sexp.field1 "impl_lhs" fs) and impl_r = Sexp.to_string (Sexp.field1 "impl_rhs" fs) in
+  let syms = parse_syms (Sexp.field "syms" fs) in
+  let vals = Sexp.field "vals" fs in
+  (* the lowering and the values are compared with the model for every rule the implementation ships,
+     known to the model or not: they only depend on the instantiated terms *)
+  let ml = from_arith N0 lhs and mr = from_arith N0 rhs in
+  let diffs = ref [] in
+  let add s = diffs := s :: !diffs in
+  (match find_rule (coqstr rn) rules with
+   | None -> add (Printf.sprintf "rule %s is not in the model: no theorem covers it" rn)
+   | Some r ->
+       let sigma = subst_of asg [] in
+       let ml_t = inst sigma r.r_lhs and mr_t = inst sigma r.r_rhs in
+       let mcond = show_res_bool (eval_condition r asg) in
+       if not (arith_eqb ml_t lhs) then add (Printf.sprintf "instantiated lhs: impl %s model %s" (show_arith lhs) (show_arith ml_t));
+       if not (arith_eqb mr_t rhs) then add (Printf.sprintf "instantiated rhs: impl %s model %s" (show_arith rhs) (show_arith mr_t));
+       if mcond <> cond then add (Printf.sprintf "side condition: impl %s model %s" cond mcond));
+  if show_res_expr ml <> impl_l then add (Printf.sprintf "from_arith lhs: impl %s model %s" impl_l (show_res_expr ml));
+  if show_res_expr mr <> impl_r then add (Printf.sprintf "from_arith rhs: impl %s model %s" impl_r (show_res_expr mr));
+  let (mismatch, differ, n) = check_vals syms vals ml mr in
+  (match mismatch with Some m -> add ("value: " ^ m) | None -> ());
+  (* property oracle, on the implementation's observations only *)
+  let widths_differ =
+    (match (try Some (expr_of_sexp (Sexp.field1 "impl_lhs" fs), expr_of_sexp (Sexp.field1 "impl_rhs" fs)) with _ -> None) with
+     | Some (a, b) -> if width_txt a <> width_txt b then Some (width_txt a, width_txt b) else None
+     | None -> None) in
+  if cond = "true" && (impl_l = "(panic)" || impl_r = "(panic)") then begin
+    (* precise class for the recorded findings: the *only* panic is the u32 overflow of the derived
+       width on the right-hand side (decided by the model's width functions on the assignment) *)
+    let w k = match List.assoc_opt (coqstr k) asg with Some v -> v | None -> N0 in
+    let key =
+      if impl_l <> "(panic)" && rn = "unmerge-left-shift" && eval_width_left_shift (w "?wa") (w "?wb") = Panic
+      then "rule:unmerge-left-shift:rhs-wlsh-overflows-u32"
+      else if impl_l <> "(panic)" && rn = "merge-left-shift" && eval_width_max_plus_1 (w "?wb") (w "?wc") = Panic
+      then "rule:merge-left-shift:rhs-max+1-overflows-u32"
+      else "rule:" ^ rn ^ ":lowering-panics" in
+    Registry.result ~id ~status:"fail" ~key
+      ~detail:(Printf.sprintf "side condition holds but from_arith panics: lhs=%s rhs=%s" impl_l impl_r) ()
+  end
+  else if cond = "true" && widths_differ <> None then
+    Registry.result ~id ~status:"fail" ~key:("rule:" ^ rn ^ ":width")
+      ~detail:(match widths_differ with Some (a, b) -> Printf.sprintf "side condition holds, widths %s vs %s" a b | None -> "") ()
+  else if cond = "true" && differ <> None then
+    Registry.result ~id ~status:"fail" ~key:("rule:" ^ rn ^ ":unsound")
+      ~detail:(Printf.sprintf "side condition holds but the sides differ: %s" (match differ with Some d -> d | None -> "")) ()
+  else if !diffs <> [] then
+    Registry.result ~id ~status:"diff" ~key:("inst:" ^ rn) ~detail:(String.concat "; " (List.rev !diffs)) ()
+  else
+    Registry.result ~id ~status:"ok" ~key:("inst:" ^ rn ^ ":" ^ cond) ~detail:(Printf.sprintf "%d tuples" n) ()
 
 let handle_roundtrip id fs =
   let e = expr_of_sexp (Sexp.field1 "expr" fs) in
